@@ -109,68 +109,79 @@ func ruleC15Table(e *Env) {
 						if !fromNil && !toNil {
 							parts = append(parts, "from"+ordSym(ft)+"to")
 						}
-						construct := strings.Join(parts, " ")
-						o := &ordOracle{ord: map[string]int{"from|to": ft, "from|p": fp, "to|p": tp}}
-						ev := &pred.Evaluator{Prog: e.P.SSA, Oracle: o, Summaries: sums}
-						var fromV, toV pred.Val = pred.Ptr{}, pred.Ptr{}
-						if !fromNil {
-							fromV = pred.Ptr{Cell: &pred.Cell{V: pred.Sym{Name: "from"}, Name: "from"}}
-						}
-						if !toNil {
-							toV = pred.Ptr{Cell: &pred.Cell{V: pred.Sym{Name: "to"}, Name: "to"}}
-						}
-						out, err := ev.Eval(fft, []pred.Val{fromV, toV})
-						if err != nil {
-							e.S.Unk(rule, site, construct, "FilterFromTo not decidable in this case: "+err.Error(), e.Pos(fft))
-							continue
-						}
-						ret, ok := out.Ret.(pred.Tuple)
-						if !ok || len(ret) != 2 {
-							e.S.Unk(rule, site, construct, fmt.Sprintf("unexpected result %v", out.Ret), e.Pos(fft))
-							continue
-						}
-						wantErr := !fromNil && !toNil && ft > 0
-						isErr := true
-						if c, ok := ret[1].(pred.Const); ok && c.V == nil {
-							isErr = false
-						}
-						if isErr != wantErr {
-							e.S.Bad(rule, site, construct, fmt.Sprintf("FilterFromTo returns error=%v; documented: error exactly when both bounds are given and from is after to", ret[1]), e.Pos(fft), construct)
-							continue
-						}
-						if wantErr {
-							if !strings.Contains(ret[1].String(), "*date.ErrInvalidFromOrTo") {
-								e.S.Bad(rule, site, construct, fmt.Sprintf("error %v does not wrap ErrInvalidFromOrTo", ret[1]), e.Pos(fft), construct)
-							} else {
-								e.S.Ok(rule, site, construct, "error wrapping ErrInvalidFromOrTo", e.Pos(fft))
+						for _, alias := range []bool{false, true} {
+							if alias && (fromNil || toNil || ft != 0) {
+								continue // the caller may pass the same pointer twice only with equal dates
 							}
-							continue
-						}
-						ifc, ok := ret[0].(pred.Iface)
-						if !ok {
-							e.S.Unk(rule, site, construct, fmt.Sprintf("filter value %v is not a concrete type boxed in the interface", ret[0]), e.Pos(fft))
-							continue
-						}
-						sel := e.P.SSA.MethodSets.MethodSet(ifc.Dyn).Lookup(datePkg, "Contains")
-						if sel == nil {
-							e.S.Unk(rule, site, construct, "returned type "+ifc.Dyn.String()+" has no Contains method", e.Pos(fft))
-							continue
-						}
-						cfn := e.P.SSA.MethodValue(sel)
-						out2, err := ev.Eval(cfn, []pred.Val{ifc.V, pred.Sym{Name: "p"}})
-						if err != nil {
-							e.S.Unk(rule, flow.FnName(cfn), construct, "Contains not decidable in this case: "+err.Error(), e.Pos(cfn))
-							continue
-						}
-						got, okb := boolOf(out2.Ret)
-						want := (fromNil || fp <= 0) && (toNil || tp >= 0)
-						switch {
-						case !okb:
-							e.S.Unk(rule, flow.FnName(cfn), construct, fmt.Sprintf("non-boolean result %v", out2.Ret), e.Pos(cfn))
-						case got != want:
-							e.S.Bad(rule, flow.FnName(cfn), construct, fmt.Sprintf("the filter built for this case (type %s) answers Contains(probe) = %v; the inclusive interval demands %v", types.TypeString(ifc.Dyn, func(p *types.Package) string { return p.Name() }), got, want), e.Pos(cfn), construct)
-						default:
-							e.S.Ok(rule, flow.FnName(cfn), construct, fmt.Sprintf("Contains = %v", want), e.Pos(cfn))
+							construct := strings.Join(parts, " ")
+							if alias {
+								construct += " (same pointer)"
+							}
+							o := &ordOracle{ord: map[string]int{"from|to": ft, "from|p": fp, "to|p": tp, "from|from": 0, "to|to": 0}}
+							ev := &pred.Evaluator{Prog: e.P.SSA, Oracle: o, Summaries: sums}
+							var fromV, toV pred.Val = pred.Ptr{}, pred.Ptr{}
+							if !fromNil {
+								fromV = pred.Ptr{Cell: &pred.Cell{V: pred.Sym{Name: "from"}, Name: "from"}}
+							}
+							if !toNil {
+								toV = pred.Ptr{Cell: &pred.Cell{V: pred.Sym{Name: "to"}, Name: "to"}}
+							}
+							if alias {
+								toV = fromV
+							}
+							out, err := ev.Eval(fft, []pred.Val{fromV, toV})
+							if err != nil {
+								e.S.Unk(rule, site, construct, "FilterFromTo not decidable in this case: "+err.Error(), e.Pos(fft))
+								continue
+							}
+							ret, ok := out.Ret.(pred.Tuple)
+							if !ok || len(ret) != 2 {
+								e.S.Unk(rule, site, construct, fmt.Sprintf("unexpected result %v", out.Ret), e.Pos(fft))
+								continue
+							}
+							wantErr := !fromNil && !toNil && ft > 0
+							isErr := true
+							if c, ok := ret[1].(pred.Const); ok && c.V == nil {
+								isErr = false
+							}
+							if isErr != wantErr {
+								e.S.Bad(rule, site, construct, fmt.Sprintf("FilterFromTo returns error=%v; documented: error exactly when both bounds are given and from is after to", ret[1]), e.Pos(fft), construct)
+								continue
+							}
+							if wantErr {
+								if !strings.Contains(ret[1].String(), "*date.ErrInvalidFromOrTo") {
+									e.S.Bad(rule, site, construct, fmt.Sprintf("error %v does not wrap ErrInvalidFromOrTo", ret[1]), e.Pos(fft), construct)
+								} else {
+									e.S.Ok(rule, site, construct, "error wrapping ErrInvalidFromOrTo", e.Pos(fft))
+								}
+								continue
+							}
+							ifc, ok := ret[0].(pred.Iface)
+							if !ok {
+								e.S.Unk(rule, site, construct, fmt.Sprintf("filter value %v is not a concrete type boxed in the interface", ret[0]), e.Pos(fft))
+								continue
+							}
+							sel := e.P.SSA.MethodSets.MethodSet(ifc.Dyn).Lookup(datePkg, "Contains")
+							if sel == nil {
+								e.S.Unk(rule, site, construct, "returned type "+ifc.Dyn.String()+" has no Contains method", e.Pos(fft))
+								continue
+							}
+							cfn := e.P.SSA.MethodValue(sel)
+							out2, err := ev.Eval(cfn, []pred.Val{ifc.V, pred.Sym{Name: "p"}})
+							if err != nil {
+								e.S.Unk(rule, flow.FnName(cfn), construct, "Contains not decidable in this case: "+err.Error(), e.Pos(cfn))
+								continue
+							}
+							got, okb := boolOf(out2.Ret)
+							want := (fromNil || fp <= 0) && (toNil || tp >= 0)
+							switch {
+							case !okb:
+								e.S.Unk(rule, flow.FnName(cfn), construct, fmt.Sprintf("non-boolean result %v", out2.Ret), e.Pos(cfn))
+							case got != want:
+								e.S.Bad(rule, flow.FnName(cfn), construct, fmt.Sprintf("the filter built for this case (type %s) answers Contains(probe) = %v; the inclusive interval demands %v", types.TypeString(ifc.Dyn, func(p *types.Package) string { return p.Name() }), got, want), e.Pos(cfn), construct)
+							default:
+								e.S.Ok(rule, flow.FnName(cfn), construct, fmt.Sprintf("Contains = %v", want), e.Pos(cfn))
+							}
 						}
 					}
 				}
